@@ -101,7 +101,8 @@ def v1(fb, chk, tag=""):
         if o.ret is None:
             continue
         cls = common.file_classes(fb, sym, o.atoms, tp, single=())
-        if ret_okness(o.ret) is True:
+        if ret_okness(o.ret) is not False:
+            # a path that may return a file (Some(..), or the result of a Vec method such as pop()/into_iter().next())
             nsome += 1
             if not cls <= {1}:
                 good = False
